@@ -30,3 +30,19 @@ pub open spec fn struct_ctor_ok(key: Seq<char>, d: StructDef, r: (Constructor, T
     (r.0 matches Constructor::Struct(c) && (c.type_name.0@ == d.name.0@ || c.type_name.0@ == key))
     && exists|ts: Seq<Ty>| #[trigger] field_types(d.fields@, ts) && ctor_type(ts, Ty::TStruct { name: d.name.0 }, d.generics@, r.1)
 }
+// ---- mono::update_constructor_type ----
+pub uninterp spec fn head_name(t: Ty) -> Seq<char>;                    // Ty::get_constr_name_unsafe: the name of the type's head constructor
+impl Ty { #[verifier::external_body] pub fn get_constr_name_unsafe(&self) -> (r: String) ensures r@ == head_name(*self) { unimplemented!() } }
+impl TastIdent { #[verifier::external_body] pub fn new(name: &String) -> (r: TastIdent) ensures r.0@ == name@ { unimplemented!() } }
+impl VClone for Constructor { #[verifier::external_body] fn vclone(&self) -> (r: Self) { unimplemented!() } }
+// the type name a constructor is re-pointed to after type applications were collapsed to monomorphic definitions
+pub open spec fn new_type_name(t: Ty) -> Option<Seq<char>> {
+    match t { Ty::TEnum { name } => Some(name@), Ty::TStruct { name } => Some(name@), Ty::TApp { ty, .. } => Some(head_name(*ty)), _ => None }
+}
+// an enum constructor stays an enum constructor with ITS variant and ITS tag, a struct constructor stays one; only the type's name follows the new type
+pub open spec fn ctor_updated(c: Constructor, t: Ty, r: Constructor) -> bool {
+    match c {
+        Constructor::Enum(e) => (if (t is TEnum || t is TApp) { r matches Constructor::Enum(e2) && e2.variant == e.variant && e2.index == e.index && Some(e2.type_name.0@) == new_type_name(t) } else { r == c }),
+        Constructor::Struct(s) => (if (t is TStruct || t is TApp) { r matches Constructor::Struct(s2) && Some(s2.type_name.0@) == new_type_name(t) } else { r == c }),
+    }
+}
